@@ -378,7 +378,10 @@ pub fn run(a: &Args) -> i32 {
     }
     // a NOTIFY abandoned mid-write (no pending entry exists for it, nothing else is in flight): the connection must
     // fail all the same; a later notify or call must not follow the torn frame
-    for kind in ["async_client", "ws_client"] {
+    // (third flavour: the notify goes out through forward_message, the entry point a proxy uses)
+    for flavour in ["async_client", "ws_client", "async_client_forward"] {
+        let kind = if flavour == "async_client_forward" { "async_client" } else { flavour };
+        let forward = flavour == "async_client_forward";
         let l = TcpListener::bind("127.0.0.1:0").unwrap();
         let addr = l.local_addr().unwrap();
         let ws = kind == "ws_client";
@@ -411,11 +414,13 @@ pub fn run(a: &Args) -> i32 {
         } else {
             let c = rt.block_on(AsyncClient::connect(addr)).unwrap();
             let c1 = c.clone();
-            let h = rt.spawn(async move { let _ = c1.notify_with_formats("/k801", 1, Some(&body), 0).await; });
+            let fwd = |id: u64, path: &str, b: Vec<u8>| Message::builder().id(id).notify(true).query_str(path).query_format_code(1).body_bytes(b).body_format_code(0).build();
+            let h = if forward { let m = fwd(801, "/k801", body); rt.spawn(async move { let _ = c1.forward_message(&m).await; }) }
+                    else { rt.spawn(async move { let _ = c1.notify_with_formats("/k801", 1, Some(&body), 0).await; }) };
             std::thread::sleep(Duration::from_millis(80));
             h.abort();
             let _ = rt.block_on(h);
-            later_err = rt.block_on(c.notify_with_formats("/k802", 1, Some(&keyed(8, 802)), 0)).is_err();
+            later_err = if forward { rt.block_on(c.forward_message(&fwd(802, "/k802", keyed(8, 802)))).is_err() } else { rt.block_on(c.notify_with_formats("/k802", 1, Some(&keyed(8, 802)), 0)).is_err() };
             drop(c);
         }
         let (bytes, msgs) = collector.join().unwrap();
@@ -431,7 +436,7 @@ pub fn run(a: &Args) -> i32 {
             let key_by_id = index_keys(&bytes);
             let segs = segments(&bytes, &|id| key_by_id.get(&id).copied().unwrap_or(801));
             let interrupted = !segs.iter().any(|x| x[0] == "whole" && x[1] == 1);
-            emit(kind, "notify_abandoned_mid_write", segs, interrupted, json!({"bytes": bytes.len(), "later_err": later_err}), &mut out);
+            emit(kind, if forward { "forwarded_notify_abandoned_mid_write" } else { "notify_abandoned_mid_write" }, segs, interrupted, json!({"bytes": bytes.len(), "later_err": later_err}), &mut out);
         }
     }
     // callers queued on the writer behind the interrupted one: when it lets go of the writer they must not put a
